@@ -186,8 +186,8 @@ def rule_bootstrap_exchange(ctx, res):
     res.sites += len(sites)
     run = ctx.co('action::bootstrap::TableBootstrapInner::run')
     res.touch(run)
-    ok = len(sites) >= 2 and all(s.body.path == run.path for s in sites)
-    res.check(ok, 'WHO', hm, 'handle_message is called only from the bootstrap task (floor 2 sites)', detail='%s' % sites)
+    ok = len(sites) >= 1 and all(s.body.path == run.path for s in sites)
+    res.check(ok, 'WHO', hm, 'handle_message is called only from the bootstrap task', detail='%s' % sites)
     # its arguments are the payload of `receivers.next().await` (FuturesUnordered<Responded>)
     s = Sym(run, max_paths=200000, merge_loop_exits=True)
     s.run()
